@@ -35,7 +35,7 @@ func init() {
 			"then a seeded random stream of nested documents (depth ≤ 4; 400 per kind quick, 8000 thorough) of every kind, whole v3 documents through Loader.LoadFromData (800 / 20000; components that are chains of references, paths that refer to other paths) and whole v2 documents. " +
 			"The Loader route, directed (c03loader.go): every reference site of every component kind (schemas in properties / items / allOf / anyOf / oneOf / not / additionalProperties / parameter / header / media type; parameters of path items and operations; headers of responses and encodings; request bodies; responses; security schemes; examples; links; callbacks) × " +
 			"{direct, chain of 2, chain of 3, fragment in another file, chain inside another file, chain through another file back into the root, whole other file} with IsExternalRefsAllowed and an in-memory ReadFromURIFunc; path-item references: single, chains of 2 and 3 in either declaration order, shared target, templated path, in a callback, whole other file, other file that is itself a reference, fragment of another file, chain inside another file. " +
-			"For these the loaded document is serialised and compared with the input (every $ref text as written, nothing of the resolved value). " +
+			"Each of them through three entry points: LoadFromData(WithPath), LoadFromFile on real files in a fresh directory, json/yaml.Unmarshal + ResolveRefsIn. For these the loaded document is serialised and compared with the input (every $ref text as written, nothing of the resolved value). One case compares the harness's registry of kinds with the object kinds of the regenerated table. " +
 			"A case is non-trivial when the model reports a branch (a kind visited, a field kept, a default dropped, a required key added, an extension or unknown key kept, a reference taken, siblings dropped, …); the branch spec.normal counts the cases in deep normal form, excl.notClean those outside the scope of the deep theorems.",
 		Exhaustive: true,
 		Gen:        genC03,
@@ -160,6 +160,15 @@ func c03Parse(b []byte) (any, error) {
 // marshaller that then follows Value can recurse without end (fatal stack overflow), so those cases are
 // evaluated in a child process; everything else runs in-process.
 func runC03(c hx.Case) any {
+	if jbool(c, "listKinds") {
+		// the kinds this harness can generate (its reflection registry), to be compared with the rows of the table
+		out := []string{}
+		for _, k := range c03Kinds {
+			out = append(out, k.wrap+":"+k.name)
+		}
+		sort.Strings(out)
+		return map[string]any{"kind": "registry", "kinds": out}
+	}
 	if jbool(c, "loader") {
 		return hx.RunIsolated("C03", c, 20000)
 	}
@@ -190,8 +199,24 @@ func runC03Direct(c hx.Case) any {
 	}
 	useLoader := jbool(c, "loader") && k.name == "openapi3.T"
 	files, _ := c["files"].(map[string]any)
+	entry := jstr(c, "entry")
 	load := func(data []byte) (any, error) {
 		if useLoader {
+			switch entry {
+			case "file":
+				return c03LoadFromFile(data, files)
+			case "resolveIn":
+				// json/yaml.Unmarshal first, then Loader.ResolveRefsIn on the parsed document
+				var doc openapi3.T
+				if err := c03Read(format, data, &doc); err != nil {
+					return nil, err
+				}
+				ld, loc := c03NewLoader(files)
+				if err := ld.ResolveRefsIn(&doc, loc); err != nil {
+					return nil, err
+				}
+				return &doc, nil
+			}
 			ld, loc := c03NewLoader(files)
 			if loc != nil {
 				return ld.LoadFromDataWithPath(data, loc)
@@ -247,6 +272,14 @@ var c03DebugMu sync.Mutex
 
 func cmpC03x(c hx.Case, impl any, reply map[string]any) hx.Verdict {
 	im, _ := impl.(map[string]any)
+	if jbool(c, "listKinds") {
+		have := toStrs(im["kinds"])
+		want := toStrs(reply["model"])
+		if !sameStrs(have, want, false) {
+			return hx.Verdict{IM: false, IS: true, Detail: fmt.Sprintf("the generator's registry of kinds %v differs from the object kinds of the descriptor table %v: a kind of the library is not generated (or no longer exists)", have, want)}
+		}
+		return hx.Verdict{IM: true, IS: true}
+	}
 	model, _ := reply["model"].(map[string]any)
 	spec, _ := reply["spec"].(map[string]any)
 	if im == nil || model == nil || spec == nil {
@@ -857,6 +890,7 @@ func c03Plain(v any) any {
 func genC03(ctx *hx.Ctx, emit func(hx.Case)) {
 	r := ctx.Rng
 	g := &c03Gen{r: r, sloppy: 0}
+	emit(hx.Case{"listKinds": true}) // the registry below covers every object kind of the regenerated table
 	exts := []map[string]any{{}, {"x-ext": map[string]any{"a": []any{1, "b"}}}, {"unknownKey": "u"}}
 	// 1. exhaustive: every kind × every field × every variant × extension shape × format
 	for _, k := range c03Kinds {
